@@ -69,7 +69,7 @@ theorem kok_mkUnion {ts : List Ty} (h : kokList ts = true) : kok (mkUnion ts) = 
 
 theorem kok_joinTypes {ts : List Ty} (h : kokList ts = true) : kok (joinTypes ts) = true := by
   have hk : kokList (dedupPy (flatList ts)) = true := kok_dedupPy (kok_flatList ts h)
-  unfold joinTypes
+  unfold joinTypes joinCore
   split
   · rename_i t heq
     rw [heq] at hk
